@@ -172,7 +172,7 @@ prop("C08", "After an unclean stop the disk cache serves only bytes it truly hol
      CACHE_ASSUME + ["crash model: files are written in order; a crash leaves a prefix of the newest file and complete older files (no reordering of writes across files)"])
 
 prop("C15", "At most one instance holds a source's leader lease at any time", "exploration",
-     "a case = 2-5 contenders (each a real Election from cluster.NewRedisCluster(...).NewElection on its own connection to the double) x lease ttl 3-30 s x a sequence of 5-40 actions: campaign, renew, resign, leader query, advance the double's VIRTUAL clock by 0..2 ttl (incl. ttl-1 ms, ttl, ttl+1 ms), lose the next campaign/renew/resign call of a contender (executed-but-reply-dropped or never executed; the instance then reconnects), stop renewing. "
+     "a case = 2-5 contenders (each a real Election from cluster.NewRedisCluster(...).NewElection on its own connection to the double) x lease ttl 3-30 s x a sequence of 5-40 actions: campaign, renew, resign, leader query, advance the double's VIRTUAL clock by 0..2 ttl (incl. ttl-1 ms, ttl, ttl+1 ms), make a campaign/renew with a caller deadline (15 ms, as the renew loop does with the renew interval) that the lease store answers 60 ms later (executed; the call may return the late true answer or give up, later calls must still agree with the model), lose the next campaign/renew/resign call of a contender (executed-but-reply-dropped or never executed; the instance then reconnects), stop renewing. "
      "The double executes the tool's own Lua scripts through ref/minilua against its keyspace and clock. non-trivial = distinct case in which leadership was handed over after a lease period elapsed AND a non-holder resigned. "
      "Oracle after EVERY step: reference lease model {holder, expiresAt}; (1) at most one contender believes it holds an unexpired lease (belief = last successful campaign/renew + ttl; resigning ends it); (2) campaign/renew succeeds iff the model says the caller is the holder or no unexpired lease exists; a failed renew is ErrNotLeader; "
      "(3) the lease key on the double (value and expiry) equals the model exactly (so resign deletes only one's own lease, and a holder that stops renewing is gone one ttl after its last success); (4) Leader() names the model's holder; a lost call never reports success. "
@@ -197,7 +197,7 @@ prop("C17", "Resume bookkeeping maintenance never loses the live resume position
 
 prop("C06", "Each source (re)connection continues the stream gap-free or takes a snapshot", "exploration",
      "a case = source state (same replication id | failover exposing the previous id and a switch offset | brand-new id; master offset 200-3000; backlog start anywhere; the master keeps producing 40-300 bytes while a replica is attached) x the target's stored position (none | under the current, previous or an unknown id; offset anywhere incl. switch offset +-1, backlog start -2..0, master offset -1..+5) "
-     "x cache pre-state produced by the real writers (empty | log only | snapshot + log; labelled and filled with the current, the previous or an unrelated history; range anywhere relative to the position) x backend (disk | memory). The real RedisInput runs against the PSYNC double (admission rule of masterTryPartialResynchronization) with a stub Output that hands out the stored position, adopts the snapshot offset after a snapshot (as sendRdb does) and records every reader it is given. "
+     "x cache pre-state produced by the real writers (empty | log only | snapshot + log; labelled and filled with the current, the previous or an unrelated history; range anywhere relative to the position) x backend (disk | memory) x optionally (1 case in 14) a target that is unreachable for the first run-id update, so that the attempt ends between re-labelling the cache and storing the snapshot and the tool reconnects 2 s later (then possibly with a source backlog that reaches back to where the cache ends). The real RedisInput runs against the PSYNC double (admission rule of masterTryPartialResynchronization) with a stub Output that hands out the stored position, adopts the snapshot offset after a snapshot (as sendRdb does) and records every reader it is given. "
      "non-trivial = distinct case in which replay continued from the stored position with a cache range that does not end at that position, or a cached snapshot was replayed. "
      "Oracle: first reader is a log reader => a position was stored, it is a point of the source's current history (current id, or previous id at/below the switch offset), the reader starts exactly there, a CONTINUE was granted, and every delivered byte equals the current history's byte function; first reader is a snapshot => complete, byte-identical to what the source sent (or to the cached snapshot of the current history), followed by a log reader at the snapshot offset with the current history's bytes; PSYNC ? only with -1.",
      [{"pkg": "c06", "test": "TestC06",
@@ -230,7 +230,7 @@ prop("C13", "Bidirectional sync never echoes its own writes nor swallows foreign
      TWOSITE_ASSUME, max_inconclusive=1)
 
 prop("C14", "Bidirectional replay resumes from the contiguous committed prefix", "exploration",
-     "a case = target {standalone, 2-3 node cluster with generated bounds} with per-node request latency (0 / 0.3 / 2 / 6 ms, so that lanes complete out of order) x replay mode {sync, pipeline, parallel (0-3 lanes)} x window 1/2/4/16 x stream of 2-14 replay units (single SET or MULTI/EXEC of SETs on one slot, PINGs in between) x 0-2 source pauses (20 / 110 / 130 ms: the frontier is flushed every 100 ms) x 1-4 generated runs plus a final complete run and a final start. A run = (re)start {process: fresh output and namespace resolution; input: same output asked again} + StartPoint + Send from the named offset, with the source having produced a generated prefix of the units (possibly nothing new), ended by {crash: the target processes exactly N more requests, start-up requests included; stop: graceful cancel after N requests; none: everything produced applied, then a 0-230 ms linger}; optionally the n-th journal deletion is answered with an error. fault_points = runs executed. "
+     "a case = target {standalone, 2-3 node cluster with generated bounds} with per-node request latency (0 / 0.3 / 2 / 6 ms, so that lanes complete out of order) x replay mode {sync, pipeline, parallel (0-3 lanes)} x window 1/2/4/16 x stream of 2-14 replay units (single SET or MULTI/EXEC of SETs on one slot, PINGs in between) x 0-2 source pauses (20 / 110 / 130 ms: the frontier is flushed every 100 ms) x 1-4 generated runs plus a final complete run and a final start; one cluster case in four is a lane race (the node owning the first unit is slow, the first run crashes while no frontier is stored), one in six a quiet full resynchronisation history. A run = (re)start {process: fresh output and namespace resolution; input: same output asked again} + StartPoint + Send from the named offset, with the source having produced a generated prefix of the units (possibly nothing new), optionally preceded by a full resynchronisation decided by the source under the same replication id (snapshot taken ahead of what the link replayed, which then counts as applied), ended by {crash: the target processes exactly N more requests counted from the start of Send; crash-start: N requests from the start of the run, start-up recovery included; stop: graceful cancel after N requests; none: everything produced applied, then a 0-230 ms linger}; optionally the n-th journal deletion is answered with an error. fault_points = runs executed. "
      "non-trivial = distinct case in which a start resumed mid-stream after a crash or a mid-way stop. "
      "Oracle (target's execution history; committed(u) = a transaction with u's marker executed): at every start the resume offset is the initial offset or the end of a committed unit, no uncommitted unit ends at or before it, it never decreases from one start to the next, StartPoint/start-up never fail on a healthy target and never fall back to a full sync; sync mode: resume = end of the last committed unit and no unit is committed twice over the whole history; every transaction with business commands is a marker + exactly one unit's commands + that unit's recovery record (latest / journal record + index entry); every stored frontier names a unit boundary with no uncommitted unit at or before it at that moment; after the final complete run every unit was committed at least once.",
      [{"pkg": "c14", "test": "TestC14",
@@ -239,7 +239,7 @@ prop("C14", "Bidirectional replay resumes from the contiguous committed prefix",
      CLUSTER_ASSUME + ["a crash is the target (or the link to it) dying after exactly N processed requests with its state intact; it also stands for the tool being killed at that moment", "the initial full synchronisation replays an empty snapshot taken at offset 1000", "streams use database 0 only"], max_inconclusive=1)
 
 prop("C18", "Cluster-mode bidirectional units are single-slot or refused, never best-effort", "exploration",
-     "a case = 1-3 node cluster with generated slot bounds x replay mode {sync, pipeline, parallel (1-3 lanes)} x window 1/2/8 x optional prefix blacklist (1-3 of 7 prefixes that cut keys out of transactions) x stream of 1-10 source units (single commands and MULTI/EXEC of 1-4 commands, PINGs in between) over 28 command shapes of the reference key table (1-key, 2-key, n-key, STORE destinations, numkeys layouts) with keys in 9 hash-tag shapes per tag and 10 'exotic' brace arrangements (empty tag, unclosed, nested, second tag, binary bytes, empty key); one case in three carries one unit with mixed-slot keys or a command whose keys cannot be determined (unknown name, malformed numkeys). "
+     "a case = 1-3 node cluster with generated slot bounds x replay mode {sync, pipeline, parallel (1-3 lanes)} x window 1/2/8 x optional prefix blacklist (1-3 of 7 prefixes that cut keys out of transactions) x stream of 1-10 source units (single commands and MULTI/EXEC of 1-4 commands, PINGs in between) over 28 command shapes of the reference key table (1-key, 2-key, n-key, STORE destinations, numkeys layouts) with keys in 9 hash-tag shapes per tag (10 tags, four of them non-ASCII: multi-byte UTF-8 and invalid UTF-8) and 10 'exotic' brace arrangements (empty tag, unclosed, nested, second tag, binary bytes, empty key); one case in three carries one unit with mixed-slot keys or a command whose keys cannot be determined (unknown name, malformed numkeys). "
      "non-trivial = distinct case with a unit of >= 2 keys or a unit that must be refused. "
      "Oracle: reference slot function (bitwise CRC16 + hash-tag rule) over the keys of the reference key-position table, applied (a) to every MULTI...EXEC any node received, executed or not, control keys included: exactly one slot, starts with a marker whose end offset names a source unit, carries exactly that unit's commands after the reference filter projection, marker slot = slot of the marker key; (b) to the source: the first unit whose keys span slots or are undeterminable must make Send return an error by itself with no transaction for it or anything behind it received by any node; a stream without such a unit must reach its end with every single-slot unit replayed and no error.",
      [{"pkg": "c18", "test": "TestC18",
@@ -250,7 +250,7 @@ prop("C18", "Cluster-mode bidirectional units are single-slot or refused, never 
 prop("C19", "Cluster replay reaches each key's slot owner and keeps per-key order", "exploration",
      "a case = 2-4 node layout with generated slot bounds x per-node reply latency (0 / 0.2 / 1.5 / 5 ms) x batch size 1-50 x {blocking, pipelined} x {ticker-driven (redirections handled), transactional (redirection => reported restart)} x stream of 3-40 writes over 15 pool keys (SET with a unique value; MSET over all pool keys of one slot) x 0-4 migration events (slot of a pool key: MIGRATING/IMPORTING with a generated subset of keys already moved => ASK, finish => MOVED, direct ownership move) fired when the cluster has processed a generated number of requests (between or in the middle of batches). "
      "non-trivial = distinct case in which a MOVED/ASK reply occurred and the replay touched >= 2 nodes. "
-     "Oracle: the double executes a command only at the node entitled to it, so ownership is by construction; per key the sequence of values that took effect (cluster-wide order) must follow the source order with rewinds only (no write takes effect before its predecessor, none invented); unless Send reported an error every key ends at its last source value (no silent loss); transactional mode: no value takes effect twice within the run.",
+     "Oracle: the double executes a command only at the node entitled to it, so ownership is by construction; per key the sequence of values that took effect (cluster-wide order) must follow the source order with rewinds only (no write takes effect before its predecessor, none invented); unless Send reported an error every key ends at its last source value (no silent loss); transactional mode: no value takes effect twice within the run, whether or not Send reported an error.",
      [{"pkg": "c19", "test": "TestC19",
        "quick": {"checks": 320, "shards": 16, "timeout": 900},
        "thorough": {"checks": 12800, "shards": 16, "timeout": 7200}}],
